@@ -2,6 +2,7 @@
 # Runs the thorough tier of the given checks one after another (used with `vp run`); results stay
 # in the snapshot it runs from (VERIF_ROOT), never in /verif/evidence.
 export VERIF_ROOT="$PWD"
+[ -n "$VP_RUN_REPO" ] && export VERIF_REPO="$VP_RUN_REPO"
 for c in "$@"; do
   ./verif.sh check $c --tier thorough 2>&1 | grep -v "^    " | tail -6
 done
